@@ -41,8 +41,8 @@ CHECKS.update({
    text="from_float is from_man_exp of the frexp parts (exact by the from_man_exp theorem); to_float is normalize1 to 53 bits (correct rounding theorem) followed by an exact ldexp in the normal range. The model is tied by correspondence over all exponent fields, subnormals, binade edges and halfway points. Theorems in Props/C09.v hold for every frexp mantissa/exponent pair and every regular mpf.",
    note=TB_A + " math.frexp/ldexp trusted."),
  "C14": dict(level="proof", engine="A", technique="Coq/Flocq theorems (Props/C14.v): containment for mpi add/sub/neg/pos on all member reals; Gallina model of libmpi (add/sub/mul/div/neg/abs/square/sqrt/pow_int) in correspondence; containment decided exactly at sampled member points; iv conversions and operators at API level",
-   text="Interval arithmetic is transliterated branch for branch (all sign cases, zero and infinite endpoints); floor/ceiling endpoint roundings are instances of the normalize theorems; the model is tied by correspondence and containment of exact results is decided exactly for member points of every generated interval, including endpoints longer than the precision and string/number conversions. Theorems in Props/C14.v: for finite canonical endpoints of any length and every pair of member reals, x+y, x-y, -x, +x, x*y (all nine sign cases incl. the min/max of exact corner products), x*x, |x|, x/y (denominator interval not containing 0) and sqrt x lie in the computed interval, which is again a valid interval. Elementary functions on intervals are decided per sampled interval by universally quantified Coq Interval certificates (props/c14e.py, exploration level for that part).",
-   note=TB_A + " Infinite endpoints, division by intervals containing zero and integer powers: correspondence + exact oracle (no theorem). Elementary part: Coq Interval certificates per instance (" + "Interval/Coquelicot axioms as for engine B). Gamma family on intervals not decided."),
+   text="Interval arithmetic is transliterated branch for branch (all sign cases, zero and infinite endpoints); floor/ceiling endpoint roundings are instances of the normalize theorems; the model is tied by correspondence and containment of exact results is decided exactly for member points of every generated interval, including endpoints longer than the precision and string/number conversions. Theorems in Props/C14.v: for finite canonical endpoints of any length and every pair of member reals, x+y, x-y, -x, +x, x*y (all nine sign cases incl. the min/max of exact corner products), x*x, |x|, x/y (denominator interval not containing 0), sqrt x and x^n (n > 0, all sign/parity cases, built on the directed mpf_pow_int theorems of C03) lie in the computed interval, which is again a valid interval. Elementary functions on intervals are decided per sampled interval by universally quantified Coq Interval certificates (props/c14e.py, exploration level for that part).",
+   note=TB_A + " Infinite endpoints, division by intervals containing zero and negative integer powers: correspondence + exact oracle (no theorem). Elementary part: Coq Interval certificates per instance (" + "Interval/Coquelicot axioms as for engine B). Gamma family on intervals not decided."),
  "C15": dict(level="proof", engine="A", technique="Coq/Flocq theorems (Props/C15.v): mpci add/sub/neg/pos/mul/square contain every exact complex result for all member points; Gallina model of mpci add/sub/mul/div/square/pow_int in correspondence; containment decided exactly at 16x9 member points per case; point-wise Interval certificates for abs/exp/log/cos/sin on rectangles",
    text="Complex interval arithmetic is a composition of the real interval model: theorems in Props/C15.v prove, for finite rectangles, every precision and every member point a+bi, c+di, that the sum, difference, negation, product (ac-bd, ad+bc) and square lie in the computed rectangle (compositions of the C14 containment theorems with exact inner products). The model is tied by correspondence; division and powers are decided exactly at member points; abs/exp/log/cos/sin on rectangles are decided point-wise by Coq Interval certificates (a necessary condition only; exploration level for that part).",
    note=TB_A + " Division, integer powers: correspondence + exact oracle (no theorem). Elementary part: per-point Interval certificates. Gamma family on rectangles not decided."),
